@@ -21,8 +21,8 @@ def observers_lines(rng, jobs):
 
 class Check(PropertyCheck):
     ID = "C06"
-    LEAN_MODULE = "JobShopProofs.Properties.C06"
-    THEOREMS = ["JS.C06_filter_now", "JS.C06_now_mono", "JS.C06_completed_mono", "JS.C06_final"]
+    LEAN_MODULE = "JobShopProofs.ObserversTransparent"
+    THEOREMS = ["JS.C06_filter_now", "JS.C06_now_mono", "JS.C06_completed_mono", "JS.C06_final", "JS.C06_world_now_mono"]
     RULE = ("random instance x filter configuration x random history (zero-duration instances only without filter, as the "
             "property states); current_time() and completed_operations() sampled before and after every dispatch request "
             "(accepted and rejected); oracle on the real answers: time never decreases, completed only grows, "
